@@ -23,6 +23,7 @@ type genProfile struct {
 	multiTarget    bool
 	fOnly          bool
 	nilRounds      bool
+	concVoting     bool // concurrent groups: mostly overlapping multi-target votes at the voting round
 }
 
 func weighted[T any](t *rapid.T, label string, items []T, weights []int) T {
@@ -215,7 +216,16 @@ func genOp(t *rapid.T, cfg simCfg, p genProfile, depth int) Op {
 	case "conc":
 		k := rapid.IntRange(2, 4).Draw(t, "nsub")
 		for i := 0; i < k; i++ {
-			op.Sub = append(op.Sub, genOp(t, cfg, p, depth+1))
+			sub := genOp(t, cfg, p, depth+1)
+			if p.concVoting && sub.K == "vote" && rapid.IntRange(0, 3).Draw(t, "conc-voting") > 0 {
+				// overlapping gossip for the voting round: same kind, several targets, overlapping signers
+				sub.DH, sub.DR, sub.PKH = 0, 0, 0
+				sub.Kind = 1
+				for len(sub.T) < 2 {
+					sub.T = append(sub.T, genVT(t, cfg.N, p))
+				}
+			}
+			op.Sub = append(op.Sub, sub)
 		}
 	case "time":
 		op.N = rapid.IntRange(1, 50).Draw(t, "ticks")
